@@ -205,25 +205,63 @@ pub struct AbsView {
     pub wire: Seq<Seq<Seq<u8>>>,
 }
 
+/// chunks of all framed datagrams on the wire, in order (a datagram of exactly one chunk is an
+/// oversized metric that was sent alone)
+pub open spec fn wire_chunks(w: Seq<Seq<Seq<u8>>>) -> Seq<Seq<u8>>
+    decreases w.len()
+{
+    if w.len() == 0 { Seq::empty() } else {
+        let r = wire_chunks(w.drop_last());
+        if w.last().len() == 1 { r } else { r + w.last() }
+    }
+}
+/// the oversized metrics on the wire, in order
+pub open spec fn wire_big(w: Seq<Seq<Seq<u8>>>) -> Seq<Seq<u8>>
+    decreases w.len()
+{
+    if w.len() == 0 { Seq::empty() } else {
+        let r = wire_big(w.drop_last());
+        if w.last().len() == 1 { r.push(w.last()[0]) } else { r }
+    }
+}
+/// everything accepted so far that fits the buffer: what already left in framed datagrams, followed
+/// by what is still pending -- the quantity that every call must conserve
+pub open spec fn flow(v: AbsView) -> Seq<Seq<u8>> { wire_chunks(v.wire) + v.pending }
+
+pub broadcast proof fn lemma_wire_push(w: Seq<Seq<Seq<u8>>>, d: Seq<Seq<u8>>)
+    ensures
+        d.len() != 1 ==> #[trigger] wire_chunks(w.push(d)) == wire_chunks(w) + d,
+        d.len() == 1 ==> wire_chunks(w.push(d)) == wire_chunks(w),
+{
+    assert(w.push(d).drop_last() == w);
+}
+pub broadcast proof fn lemma_wire_big_push(w: Seq<Seq<Seq<u8>>>, d: Seq<Seq<u8>>)
+    ensures
+        d.len() != 1 ==> #[trigger] wire_big(w.push(d)) == wire_big(w),
+        d.len() == 1 ==> wire_big(w.push(d)) == wire_big(w).push(d[0]),
+{
+    assert(w.push(d).drop_last() == w);
+}
+
+/// the per-call postconditions of write/flush as a transition relation on the abstract view: a call
+/// may move chunks from `pending` to the wire in any way it likes, but
+///  - an accepted fitting metric adds exactly [metric, terminator] at the END of the flow,
+///  - an accepted oversized metric adds exactly itself to the oversized datagrams,
+///  - a failed call adds nothing, and nobody ever removes or reorders anything
 pub open spec fn step_write(pre: AbsView, m: Seq<u8>, ok: bool, post: AbsView, e: Seq<u8>, cap: nat) -> bool {
     if !ok {
-        (post.pending =~= pre.pending && post.wire =~= pre.wire)
+        flow(post) =~= flow(pre) && wire_big(post.wire) =~= wire_big(pre.wire)
     } else if m.len() + e.len() > cap {
-        post.pending =~= pre.pending && post.wire =~= pre.wire.push(seq![m])
+        flow(post) =~= flow(pre) && wire_big(post.wire) =~= wire_big(pre.wire).push(m)
     } else {
-        ||| (post.wire =~= pre.wire && post.pending =~= pre.pending.push(m).push(e))
-        ||| (pre.pending.len() > 0 && post.wire =~= pre.wire.push(pre.pending) && post.pending =~= Seq::<Seq<u8>>::empty().push(m).push(e))
-        ||| (post.wire =~= pre.wire.push(pre.pending.push(m).push(e)) && post.pending =~= Seq::<Seq<u8>>::empty())
+        flow(post) =~= flow(pre).push(m).push(e) && wire_big(post.wire) =~= wire_big(pre.wire)
     }
 }
 
 pub open spec fn step_flush(pre: AbsView, ok: bool, post: AbsView) -> bool {
-    if !ok {
-        (post.pending =~= pre.pending && post.wire =~= pre.wire)
-    } else {
-        post.pending =~= Seq::<Seq<u8>>::empty()
-        && post.wire =~= (if pre.pending.len() > 0 { pre.wire.push(pre.pending) } else { pre.wire })
-    }
+    &&& flow(post) =~= flow(pre)
+    &&& wire_big(post.wire) =~= wire_big(pre.wire)
+    &&& (ok ==> post.pending =~= Seq::<Seq<u8>>::empty())
 }
 } // mod spec
 
@@ -284,32 +322,6 @@ pub open spec fn acked_big(ops: Seq<(Op, bool)>, e: Seq<u8>, cap: nat) -> Seq<Se
         }
     }
 }
-/// chunks of all framed datagrams (a datagram of exactly one chunk is an oversized metric sent alone)
-pub open spec fn wire_chunks(w: Seq<Seq<Seq<u8>>>) -> Seq<Seq<u8>>
-    decreases w.len()
-{
-    if w.len() == 0 { Seq::empty() } else {
-        let r = wire_chunks(w.drop_last());
-        if w.last().len() == 1 { r } else { r + w.last() }
-    }
-}
-pub open spec fn wire_big(w: Seq<Seq<Seq<u8>>>) -> Seq<Seq<u8>>
-    decreases w.len()
-{
-    if w.len() == 0 { Seq::empty() } else {
-        let r = wire_big(w.drop_last());
-        if w.last().len() == 1 { r.push(w.last()[0]) } else { r }
-    }
-}
-
-proof fn lemma_wire_push(w: Seq<Seq<Seq<u8>>>, d: Seq<Seq<u8>>)
-    ensures
-        d.len() != 1 ==> wire_chunks(w.push(d)) == wire_chunks(w) + d && wire_big(w.push(d)) == wire_big(w),
-        d.len() == 1 ==> wire_chunks(w.push(d)) == wire_chunks(w) && wire_big(w.push(d)) == wire_big(w).push(d[0]),
-{
-    assert(w.push(d).drop_last() == w);
-}
-
 proof fn lemma_chunkify_push(ms: Seq<Seq<u8>>, m: Seq<u8>, e: Seq<u8>)
     ensures chunkify(ms.push(m), e) == chunkify(ms, e).push(m).push(e)
 {
@@ -338,39 +350,21 @@ proof fn lemma_prefix_trace(s: Seq<AbsView>, ops: Seq<(Op, bool)>, e: Seq<u8>, c
 pub proof fn lemma_conservation(s: Seq<AbsView>, ops: Seq<(Op, bool)>, e: Seq<u8>, cap: nat)
     requires trace_ok(s, ops, e, cap), s[0].pending.len() == 0, s[0].wire.len() == 0
     ensures
-        wire_chunks(s.last().wire) + s.last().pending == chunkify(acked_fit(ops, e, cap), e),
-        wire_big(s.last().wire) == acked_big(ops, e, cap),
-        s.last().pending.len() % 2 == 0,
+        flow(s.last()) =~= chunkify(acked_fit(ops, e, cap), e),
+        wire_big(s.last().wire) =~= acked_big(ops, e, cap),
     decreases ops.len()
 {
     if ops.len() == 0 {
-        assert(wire_chunks(s[0].wire) + s[0].pending =~= Seq::<Seq<u8>>::empty());
+        assert(flow(s[0]) =~= Seq::<Seq<u8>>::empty());
         assert(wire_big(s[0].wire) =~= Seq::<Seq<u8>>::empty());
     } else {
         lemma_prefix_trace(s, ops, e, cap);
         let s0 = s.drop_last(); let o0 = ops.drop_last();
         lemma_conservation(s0, o0, e, cap);
-        let pre = s0.last(); let post = s.last();
         let af0 = acked_fit(o0, e, cap);
         match ops.last().0 {
-            Op::Flush => {
-                if ops.last().1 {
-                    lemma_wire_push(pre.wire, pre.pending);
-                    assert(wire_chunks(post.wire) + post.pending =~= wire_chunks(pre.wire) + pre.pending);
-                }
-            }
-            Op::Write(m) => {
-                if ops.last().1 {
-                    if !fits(m, e, cap) {
-                        lemma_wire_push(pre.wire, seq![m]);
-                    } else {
-                        lemma_chunkify_push(af0, m, e);
-                        lemma_wire_push(pre.wire, pre.pending);
-                        lemma_wire_push(pre.wire, pre.pending.push(m).push(e));
-                        assert(wire_chunks(post.wire) + post.pending =~= (wire_chunks(pre.wire) + pre.pending).push(m).push(e));
-                    }
-                }
-            }
+            Op::Flush => {}
+            Op::Write(m) => { if ops.last().1 && fits(m, e, cap) { lemma_chunkify_push(af0, m, e); } }
         }
     }
 }
@@ -381,13 +375,17 @@ pub proof fn lemma_flush_complete(s: Seq<AbsView>, ops: Seq<(Op, bool)>, e: Seq<
     requires trace_ok(s, ops, e, cap), s[0].pending.len() == 0, s[0].wire.len() == 0,
         ops.len() > 0, ops.last().0 is Flush, ops.last().1,
     ensures
-        wire_chunks(s.last().wire) == chunkify(acked_fit(ops, e, cap), e),
-        forall|post: AbsView| step_flush(s.last(), true, post) ==> post.wire == s.last().wire,
+        wire_chunks(s.last().wire) =~= chunkify(acked_fit(ops, e, cap), e),
+        s.last().pending.len() == 0,
+        forall|post: AbsView| step_flush(s.last(), true, post) ==> wire_chunks(post.wire) =~= wire_chunks(s.last().wire),
 {
     lemma_conservation(s, ops, e, cap);
     lemma_prefix_trace(s, ops, e, cap);
-    assert(s.last().pending.len() == 0);
-    assert(wire_chunks(s.last().wire) + s.last().pending =~= wire_chunks(s.last().wire));
+    assert(s.last().pending =~= Seq::<Seq<u8>>::empty());
+    assert(flow(s.last()) =~= wire_chunks(s.last().wire));
+    assert forall|post: AbsView| step_flush(s.last(), true, post) implies wire_chunks(post.wire) =~= wire_chunks(s.last().wire) by {
+        assert(flow(post) =~= wire_chunks(post.wire));
+    }
 }
 
 /// C05, lifted to histories: if every step extends the log only by well-formed datagrams, every
@@ -425,7 +423,7 @@ use vstd::prelude::*;
 use vstd::string::*;
 use super::model::*;
 use super::spec::*;
-broadcast use {lemma_flat_push, lemma_flat_empty, lemma_extends_refl, lemma_extends_push, lemma_extends_push2};
+broadcast use {lemma_flat_push, lemma_flat_empty, lemma_extends_refl, lemma_extends_push, lemma_extends_push2, lemma_wire_push, lemma_wire_big_push};
 
 //@ITEM cadence/src/io.rs :: struct WriterMetrics\b
 impl WriterMetrics {
@@ -437,13 +435,13 @@ impl WriterMetrics {
 //@ITEM cadence/src/io.rs :: pub struct MultiLineWriter<T>
 
 impl MultiLineWriter {
-    /// C20 assumption: the three diagnostic call counters have not reached 2^64 - 2
+    /// C20 assumption: the three diagnostic call counters are below 2^62 (fewer than 2^62 calls so far)
     spec fn counters_ok(&self) -> bool {
-        self.metrics.inner_write < u64::MAX - 1 && self.metrics.buf_write < u64::MAX - 1 && self.metrics.flushed < u64::MAX - 1
+        self.metrics.inner_write < 0x4000_0000_0000_0000 && self.metrics.buf_write < 0x4000_0000_0000_0000 && self.metrics.flushed < 0x4000_0000_0000_0000
     }
     spec fn counters_ok_after(&self, pre: MultiLineWriter) -> bool {
-        self.metrics.inner_write <= pre.metrics.inner_write + 1 && self.metrics.buf_write <= pre.metrics.buf_write + 1
-        && self.metrics.flushed <= pre.metrics.flushed + 1
+        self.metrics.inner_write <= pre.metrics.inner_write + 4 && self.metrics.buf_write <= pre.metrics.buf_write + 4
+        && self.metrics.flushed <= pre.metrics.flushed + 4
     }
     spec fn counters_flush(&self, pre: MultiLineWriter) -> bool {
         self.metrics.inner_write == pre.metrics.inner_write && self.metrics.buf_write == pre.metrics.buf_write
@@ -501,7 +499,7 @@ impl MultiLineWriter {
             final(self).inv(),                                         // [C05 C06 C07 C13] write preserves the representation invariant
             final(self).cap() == old(self).cap(),                      // [C05] capacity never changes
             final(self).ending() == old(self).ending(),                // [C05] terminator never changes
-            final(self).counters_ok_after(*old(self)),
+            final(self).counters_ok_after(*old(self)),   // (helper: the diagnostic call counters grow by at most 4 per call)
             log_extends_ok(old(self).wire(), final(self).wire(), old(self).ending(), old(self).cap()),  // [C05 C13] every datagram sent during an emit is whole metrics+terminators within capacity, or one oversized metric alone
             r matches Ok(n) ==> n == buf@.len(),                       // [C06] Ok carries the metric's byte length
             r.is_ok() ==> final(self).last_err() == old(self).last_err(),
@@ -510,16 +508,8 @@ impl MultiLineWriter {
                 final(self).pending() == old(self).pending(),          // [C06 C07] an oversized metric leaves the buffer untouched
             r.is_ok() && buf@.len() + old(self).ending().len() > old(self).cap() ==>
                 final(self).wire() == old(self).wire().push(seq![buf@]),   // [C05 C06] an oversized metric is written during its own emit, alone, unmodified, without terminator
-            r.is_ok() && buf@.len() + old(self).ending().len() <= old(self).cap() ==>
-                ({  ||| (final(self).wire() == old(self).wire()
-                         && final(self).pending() == old(self).pending().push(buf@).push(old(self).ending()))
-                    ||| (old(self).pending().len() > 0
-                         && final(self).wire() == old(self).wire().push(old(self).pending())
-                         && final(self).pending() == Seq::<Seq<u8>>::empty().push(buf@).push(old(self).ending()))
-                    ||| (final(self).wire() == old(self).wire().push(old(self).pending().push(buf@).push(old(self).ending()))
-                         && final(self).pending() == Seq::<Seq<u8>>::empty())
-                }),                                                    // [C06] an accepted fitting metric is buffered exactly once behind everything accepted earlier; whatever leaves is the whole old buffer, once, in order
-            step_write(old(self).absview(), buf@, r.is_ok(), final(self).absview(), old(self).ending(), old(self).cap()),  // [C06 C07] write is one step of the abstract transition relation consumed by the history lemmas (conservation for every history and fault pattern)
+            r.is_ok() ==> step_write(old(self).absview(), buf@, true, final(self).absview(), old(self).ending(), old(self).cap()),  // [C06] conservation: an accepted fitting metric adds exactly [metric, terminator] at the end of (framed chunks on the wire ++ pending); an accepted oversized metric adds exactly itself to the oversized datagrams; nothing is removed, duplicated or reordered
+            r.is_err() ==> step_write(old(self).absview(), buf@, false, final(self).absview(), old(self).ending(), old(self).cap()),  // [C07] conservation under failure: a failed emit adds nothing (its own metric can never be written later) and loses nothing that was accepted earlier
             r.is_err() ==> final(self).pending() == old(self).pending(),   // [C07] failed emit: everything accepted earlier stays buffered, its own metric is not buffered
             r.is_err() ==> final(self).wire() == old(self).wire(),         // [C07] failed emit: nothing reached the wire
     //@END
@@ -527,7 +517,7 @@ impl MultiLineWriter {
     //@FN cadence/src/io.rs :: impl<T> Write for MultiLineWriter<T> :: flush :: vis=
         requires
             old(self).inv(),
-            old(self).counters_ok(),
+            old(self).metrics.flushed < u64::MAX,   // C20 assumption: fewer than 2^64 flush calls
         ensures
             final(self).inv(),                                         // [C05 C06 C07 C13] flush preserves the representation invariant
             final(self).cap() == old(self).cap(),                      // [C05] capacity never changes
@@ -539,7 +529,8 @@ impl MultiLineWriter {
             r.is_err() ==> final(self).buffered() == old(self).buffered(),     // (helper)
             r.is_ok() ==> final(self).wire() == (if old(self).pending().len() > 0 { old(self).wire().push(old(self).pending()) } else { old(self).wire() }),  // [C06 C13] flush sends exactly the pending metrics, once, in order, as one datagram (what remains is sent when flushed); with nothing pending it sends nothing
             r.is_ok() ==> final(self).last_err() == old(self).last_err(),
-            step_flush(old(self).absview(), r.is_ok(), final(self).absview()),     // [C06 C07] flush is one step of the abstract transition relation consumed by the history lemmas
+            r.is_ok() ==> step_flush(old(self).absview(), true, final(self).absview()),     // [C06] conservation: flush adds and removes nothing; after Ok nothing is pending
+            r.is_err() ==> step_flush(old(self).absview(), false, final(self).absview()),   // [C07] conservation under failure: a failed flush loses nothing that was accepted
             r.is_err() ==> final(self).pending() == old(self).pending(),     // [C07] failed flush keeps everything buffered
             r.is_err() ==> final(self).wire() == old(self).wire(),           // [C07] failed flush: nothing reached the wire
             r matches Err(e) ==> final(self).last_err() == Some(e),          // [C07] the error returned by flush is the socket's own error
@@ -570,11 +561,11 @@ impl WriterMetrics {
 
 impl MultiLineWriter {
     spec fn counters_ok(&self) -> bool {
-        self.metrics.inner_write < u64::MAX - 1 && self.metrics.buf_write < u64::MAX - 1 && self.metrics.flushed < u64::MAX - 1
+        self.metrics.inner_write < 0x4000_0000_0000_0000 && self.metrics.buf_write < 0x4000_0000_0000_0000 && self.metrics.flushed < 0x4000_0000_0000_0000
     }
     spec fn counters_ok_after(&self, pre: MultiLineWriter) -> bool {
-        self.metrics.inner_write <= pre.metrics.inner_write + 1 && self.metrics.buf_write <= pre.metrics.buf_write + 1
-        && self.metrics.flushed <= pre.metrics.flushed + 1
+        self.metrics.inner_write <= pre.metrics.inner_write + 4 && self.metrics.buf_write <= pre.metrics.buf_write + 4
+        && self.metrics.flushed <= pre.metrics.flushed + 4
     }
     spec fn counters_flush(&self, pre: MultiLineWriter) -> bool {
         self.metrics.inner_write == pre.metrics.inner_write && self.metrics.buf_write == pre.metrics.buf_write
@@ -617,7 +608,7 @@ impl MultiLineWriter {
             final(self).tight(),                                       // [C19] write keeps the byte accounting exact
             final(self).cap() == old(self).cap(),
             final(self).ending() == old(self).ending(),
-            final(self).counters_ok_after(*old(self)),
+            final(self).counters_ok_after(*old(self)),   // (helper: the diagnostic call counters grow by at most 4 per call)
             r.is_ok() && buf@.len() + old(self).ending().len() > old(self).cap() ==>
                 final(self).attempts() == old(self).attempts() + 1
                 && final(self).wire() == old(self).wire().push(seq![buf@])
@@ -634,15 +625,18 @@ impl MultiLineWriter {
                 }),                                                    // [C19] exact fill: the metric joins the pending ones (buffered, or sent together with them)
             r.is_ok() && buf@.len() + old(self).ending().len() <= old(self).cap()
                 && buf@.len() + old(self).ending().len() > old(self).cap() - old(self).pending_bytes() ==>
-                final(self).wire() == (if old(self).pending_bytes() > 0 { old(self).wire().push(old(self).pending()) } else { old(self).wire() })
-                && final(self).pending() == Seq::<Seq<u8>>::empty().push(buf@).push(old(self).ending()),  // [C19] no room: exactly the old buffer leaves, alone; the new metric is not sent on its own
-            r.is_err() ==> final(self).pending() == old(self).pending() && final(self).wire() == old(self).wire(),
+                ({  let w1 = if old(self).pending_bytes() > 0 { old(self).wire().push(old(self).pending()) } else { old(self).wire() };
+                    let line = Seq::<Seq<u8>>::empty().push(buf@).push(old(self).ending());
+                    ||| (final(self).wire() == w1 && final(self).pending() == line)
+                    ||| (buf@.len() + old(self).ending().len() == old(self).cap() && final(self).wire() == w1.push(line) && final(self).pending() == Seq::<Seq<u8>>::empty())
+                }),  // [C19] no room: exactly the old buffer leaves, alone; the new metric is then buffered (it may leave at once only if it fills the whole buffer by itself)
+            r.is_err() ==> final(self).pending() == old(self).pending() && final(self).wire() == old(self).wire(),   // (helper: the current code leaves the state untouched on failure)
     //@END
 
     //@FN cadence/src/io.rs :: impl<T> Write for MultiLineWriter<T> :: flush :: vis=
         requires
             old(self).tight(),
-            old(self).counters_ok(),
+            old(self).metrics.flushed < u64::MAX,
         ensures
             final(self).tight(),                                       // [C19] flush keeps the byte accounting exact
             final(self).cap() == old(self).cap(),
@@ -651,7 +645,7 @@ impl MultiLineWriter {
             r.is_ok() ==> final(self).pending() == Seq::<Seq<u8>>::empty()
                 && final(self).wire() == (if old(self).pending_bytes() > 0 { old(self).wire().push(old(self).pending()) } else { old(self).wire() }),  // [C19] an explicit flush sends the pending metrics as ONE datagram
             old(self).pending_bytes() == 0 ==> r.is_ok() && final(self).attempts() == old(self).attempts() && final(self).wire() == old(self).wire(),  // [C19] flushing an empty buffer makes no send attempt
-            r.is_err() ==> final(self).pending() == old(self).pending() && final(self).wire() == old(self).wire(),
+            r.is_err() ==> final(self).pending() == old(self).pending() && final(self).wire() == old(self).wire(),   // (helper: the current code leaves the state untouched on failure)
     //@END
 }
 
